@@ -566,8 +566,13 @@ theorem stepUnwind_sim {g bm ty t t'} (h : TSim g bm ty true t t') (f : String) 
     F2 (TSim g bm ty b1) (stepUnwind f t) (stepUnwind f t') := by
   unfold stepUnwind
   rw [h.cur_eq, hv]
-  cases t.cur with
-  | none => exact .nil
+  cases hc : t.cur with
+  | none =>
+    -- no current element: the traveler is passed on as it is; with no element the loaded flag of
+    -- the relation is vacuous
+    have hc' : t'.cur = none := by rw [h.cur_eq, hc]
+    exact .cons { path := h.path, count := h.count, render := h.render, sel := h.sel, agg := h.agg,
+                  cur := by rw [hc, hc']; trivial, marks := h.marks, selLoaded := h.selLoaded } .nil
   | some cur =>
     simp only
     apply F2.of_map_same
